@@ -229,6 +229,11 @@ def main():
     forced_fns = set(V['forced'])
     unchecked += [f for f in cone_fns if f in forced_fns and f not in unchecked]
     tool_mine = [t for t in tool if t['fn'] is None or t['fn'] in cone_fns or t['fn'] not in {c_.name for c_ in b['contracts']}]
+    scan_hits = []
+    if pid == 'C14':
+        scan_hits = props.scan_hidden_state(vrun.REPO)
+        for h in scan_hits:
+            tool_mine.append({'msg': 'hidden-state scan hit (needs review, not decided by contracts): ' + h, 'fn': None, 'line': 0, 'compile': False})
     known, fixed = load_known()
     violations, known_hits = [], []
     for f in mine:
@@ -284,6 +289,7 @@ def main():
             'extraction_log': b['logs'],
             'unchecked_functions': unchecked, 'tool_limits': [t['msg'] + ' @' + str(t['fn']) for t in tool_mine[:20]],
             'known_findings_hit': [k for k, _ in known_hits],
+            'hidden_state_scan': ('clean: no static mut / interior mutability / globals / time / randomness / unsafe in src (excluding src/tests)' if pid == 'C14' and not scan_hits else scan_hits),
             'verus_run_cached': res.get('cached', False), 'verus_wall_s': res.get('wall_s'),
             'forced_assumed_after_module_abort': V['forced'],
             'failing_functions_retried_with_other_seeds': {k_: ('discharged with seed %s' % v_ if v_ is not None else 'still failing') for k_, v_ in V.get('retried', {}).items()},
